@@ -781,13 +781,22 @@ def finish_unattributed(ctx, p, pool):
         report(ctx, c, "variable-declaration-printed-inside-expression-after-definition-was-propagated-away", what_of(p["symptom"]), p["detail"],
                dict(extra, attribution="the decompiled source contains '<type> vN' in operand position"))
         return
-    if any(f.endswith("-switch") or f == "ctl:do-while" for f in feats):
+    diags = (p["detail"] or {}).get("diagnostics") or []
+    if p["symptom"].startswith("javac-incompatible-types") and diags and re.search(r"lossy conversion from \w+ to \w+ \|\s*(?:char|byte|short|int|long) v\d+\w* = ", str(diags[0])):
+        # the diagnostic itself shows the mechanism: a DECLARATION whose declared type cannot hold its own initialiser - the register is reused
+        # for values of another type and the variable took the type of one of the other definitions
+        ctx.count("attributed_by_source_evidence")
+        report(ctx, c, "declared-type-of-reused-register-taken-from-another-definition", what_of(p["symptom"]), p["detail"],
+               dict(extra, attribution="javac rejects a declaration line '<type> vN = <expr of a wider type>'"))
+        return
+    nested = any(f.startswith("nest:") and "/" in f for f in feats) or sum(1 for f in feats if f.startswith("seq:")) >= 1
+    if any(f.endswith("-switch") or f == "ctl:do-while" for f in feats) or (pool == "P5" and nested):
         # The decompiler has several structural defects around switches and do-while loops (the switch-* / loop-nested-in-do-while /
         # declaration-inside-do-while mechanisms found by the single-subject pools). In a random multi-construct method their interactions
         # cannot be separated by neutralising one feature, so such a residue is recorded under ONE composite mechanism, which is a known
         # finding; the single-subject pools PS/PC (every switch shape, every two-level nesting) remain the precise judges for these constructs.
-        ctx.count("residue_in_methods_with_switch_or_do_while")
-        report(ctx, c, "unisolated-failure-in-method-with-switch-or-do-while", what_of(p["symptom"]) + " (random method containing a switch or do-while; constructs: %s)" % subj, p["detail"], extra)
+        ctx.count("residue_in_methods_with_switch_do_while_or_nesting")
+        report(ctx, c, "unisolated-failure-in-method-with-switch-or-do-while", what_of(p["symptom"]) + " (random method containing a switch, a do-while or (pool P5) nested/sequenced control constructs; constructs: %s)" % subj, p["detail"], extra)
         return
     report(ctx, c, "unattributed-%s-%s" % (pool, p["symptom"]), what_of(p["symptom"]) + " (no single-feature mechanism explains it; constructs: %s)" % subj, p["detail"], extra)
 
